@@ -89,6 +89,9 @@ type UnitOpts struct {
 	// they are proved in another unit of the same plan (the plan checks that). Sound: a conjunction of
 	// invariants is inductive if each conjunct is preserved under the assumption of all of them.
 	AssumeGroups []string
+	// FrameOnly: only the frame obligations (modifies clause, excepted types, ghost fields) are obligations; everything
+	// else is assumed as with AssertsOnly (the other clauses of the function are proved by the plan that owns them)
+	FrameOnly bool
 	// AssumePre: preconditions of callees are assumed (and listed), not proved: they belong to another plan
 	AssumePre bool
 	// SkipLoopFrame: no loopframe obligations (they depend on the code alone, not on the clause groups;
